@@ -824,6 +824,15 @@ pub fn replay(ctx: &mut Ctx, rep: &mut Report, v: &Value) {
             // ... and the use of whatever EncodedSequence::encode accepted (same steps as the `encode` space)
             let text: Vec<u8> = c["text_bytes"].as_array().map(|a| a.iter().map(|x| x.as_u64().unwrap_or(0) as u8).collect()).unwrap_or_default();
             let protein = c["alphabet"].as_str() == Some("protein");
+            // ... and the too-short destinations of the `encode` space
+            if let Some(ecfg) = c["cfg"].as_str().and_then(cfgs::ECfg::from_name) {
+                let len = text.len();
+                if len == 33 || len == 64 || len == 96 {
+                    for short in [1usize, 16, 32] {
+                        let _ = if protein { cfgs::encode_into_short::<Protein>(ecfg, &text, len - short) } else { cfgs::encode_into_short::<Dna>(ecfg, &text, len - short) };
+                    }
+                }
+            }
             if let Some(arm) = c["cfg"].as_str().and_then(cfgs::ECfg::from_name).and_then(|e| e.arm()) {
                 let used = catch(|| cfgs::with_arm(arm, || if protein { use_encoded::<Protein>(&text) } else { use_encoded::<Dna>(&text) }));
                 if let Err(msg) = used {
